@@ -8,6 +8,7 @@ from jaqalpaq.core.algorithm.visitor import Visitor
 from jaqalpaq.core import circuitbuilder
 from jaqalpaq.core.register import Register, NamedQubit
 from jaqalpaq.core.constant import Constant
+from jaqalpaq.core.parameter import make_item_name
 
 
 def fill_in_let(circuit, override_dict=None):
@@ -103,6 +104,10 @@ class LetFiller(Visitor):
         new_from = self.visit(qubit.alias_from)
         if new_index is qubit.alias_index and new_from is qubit.alias_from:
             return qubit
+        if qubit.name != make_item_name(qubit.alias_from, qubit.alias_index):
+            # A single-qubit alias (map s q[0]) keeps its own name; only an
+            # indexed reference like q[n] is renamed (to q[<value of n>]).
+            return NamedQubit(qubit.name, new_from, new_index)
         return new_from[new_index]
 
     def visit_Register(self, reg):
